@@ -134,6 +134,8 @@ type putHook struct {
 type poolModel struct {
 	bags   map[*value][]value
 	nondet bool
+	budget int // nondeterministic Gets left (-1: unlimited)
+	width  int // when > 0: at most this many alternatives per Get (newest ones, the oldest, a new object)
 	gets   int
 	reuses int
 }
@@ -265,6 +267,14 @@ func init() {
 	}
 	I[vrtPath+"PoolNondet"] = func(fr *frame, args []value) value {
 		fr.i.p.pool.nondet = args[0].(bool)
+		fr.i.p.pool.budget = -1
+		fr.i.p.pool.width = 0
+		return nil
+	}
+	I[vrtPath+"PoolNondetFirst"] = func(fr *frame, args []value) value {
+		fr.i.p.pool.nondet = true
+		fr.i.p.pool.budget = int(fr.conc(args[0]))
+		fr.i.p.pool.width = int(fr.conc(args[1]))
 		return nil
 	}
 	I[vrtPath+"SolverHint"] = func(fr *frame, args []value) value {
@@ -463,12 +473,28 @@ func init() {
 			return poolNew(fr, key)
 		}
 		k := len(bag) - 1 // LIFO reuse by default
-		if pm.nondet {
-			c := p.choose(len(bag)+1, "")
-			if c == len(bag) {
-				return poolNew(fr, key)
+		if pm.nondet && pm.budget != 0 {
+			if pm.budget > 0 {
+				pm.budget--
 			}
-			k = c
+			if pm.width > 0 && len(bag)+1 > pm.width {
+				// a bounded menu: the newest objects, the oldest one, or a new one
+				c := p.choose(pm.width, "")
+				switch {
+				case c == pm.width-1:
+					return poolNew(fr, key)
+				case c == pm.width-2:
+					k = 0 // the oldest
+				default:
+					k = len(bag) - 1 - c // the c-th newest
+				}
+			} else {
+				c := p.choose(len(bag)+1, "")
+				if c == len(bag) {
+					return poolNew(fr, key)
+				}
+				k = c
+			}
 		}
 		x := bag[k]
 		pm.bags[key] = append(append([]value{}, bag[:k]...), bag[k+1:]...)
